@@ -41,6 +41,8 @@ func runC04(c *Check) {
 	c.ruleProofConversionTotal("R11")
 	c.ruleDecodeLoopsKeepEveryElement("R12", 10)
 	c.ruleAlreadyConfirmedNeedsBlockInChain("R13")
+	c.ruleNotificationFreshPerDelivery("R14")
+	c.ruleNoCallTo("R15", "ResetTxs", []string{"handlers", "spynode", "state"}, "a block that was read to the end is rewound and handed out again: its txs are delivered a second time under the next height, with proofs for a header the node does not hold there")
 	// R9 the proof's codec: a stored / transmitted confirmation is decoded with the proof it was written with
 	if cp := c.P.CodecPkg("client"); cp != nil {
 		for _, pr := range codecPairsIn(cp, "Serialize", "Deserialize") {
